@@ -282,6 +282,38 @@ Theorem C02_stale_test_tie : gen_stale_test = model_stale_test.
 Proof. exact stale_test_tie. Qed.
 Print Assumptions C02_stale_test_tie.
 
+(* the is_instance / is_value branches of Constraint.apply_to_value, translated from source, are the model's
+   apply_isinstance / apply_isvalue *)
+Theorem C02_apply_branches_tie :
+  (forall a b c d e f g h i j k l, gen_isinstance_apply a b c d e f g h i j k l = isinstance_apply_skel a b c d e f g h i j k l) /\
+  (forall a b c d e f g h i j k l m, gen_isvalue_apply a b c d e f g h i j k l m = isvalue_apply_skel a b c d e f g h i j k l m) /\
+  (forall c positive s,
+     apply_isinstance c positive s =
+     ainterp (isinstance_apply_skel (is_any_b (sbase s)) positive (is_known_b (sbase s)) (isinst (known_obj (sbase s)) c)
+                (is_typed_b (sbase s)) false (sub (nominal_cls (sbase s)) c) (sub c (nominal_cls (sbase s)))
+                (promotable c (nominal_cls (sbase s))) (is_sub_b (sbase s)) true (isinst (OClass (sub_cls (sbase s))) c))
+             s (plain VAny) (plain (VTyped c))) /\
+  (forall l positive s,
+     apply_isvalue l positive s =
+     ainterp (isvalue_apply_skel (is_any_b (sbase s)) positive (is_known_b (sbase s)) (obj_eqb (known_obj (sbase s)) l)
+                (is_typed_b (sbase s)) (isinst l (nominal_cls (sbase s))) (promotable (class_of l) (nominal_cls (sbase s)))
+                (is_sub_b (sbase s)) true (is_class_obj l) true (sub (class_obj l) (sub_cls (sbase s)))
+                (promotable (class_obj l) (sub_cls (sbase s))))
+             s (plain VAny) (plain (VKnown l))).
+Proof. exact apply_branches_tie. Qed.
+Print Assumptions C02_apply_branches_tie.
+
+(* the loops of Constraint.apply_to_values / _apply_compound / _constrain_value have the model's shape *)
+Theorem C02_loops_tie :
+  (gen_oneof_concat = true /\ forall cs s, apply_constr (KOneOf cs) s = flat_map (fun c => apply_constr c s) cs) /\
+  (gen_allof_sequential = true /\ gen_apply_values_flatmap = true /\
+   forall cs s, apply_constr (KAllOf cs) s = fold_left (fun vals c => flat_map (apply_constr c) vals) cs [s]) /\
+  (gen_predicate_is_provider = true /\ forall p pos s, apply_constr (KPred p pos) s = apply_pred p s pos) /\
+  (gen_constrain_fold = true /\ gen_constrain_applies = true /\
+   forall v a, constrain v a = fold_left (fun vals k => flat_map (apply_constr k) vals) (apply_acon a) v).
+Proof. exact loops_tie. Qed.
+Print Assumptions C02_loops_tie.
+
 Theorem C02_stored_disjoint_rule_refuted :
   exists cur cons V c pol o d,
     In d cur /\ member o V = true /\ (In d cons -> holds c o = Some pol) /\ c02_guard c o = true /\
